@@ -74,6 +74,9 @@ def decOp : List String → Option PkgOps.Op
       let ex ← if existing == "none" then some none else some <$> existing.toNat?
       pure (.addPicture (← slide.toNat?) ex (← new.toNat?) (← decStr ext))
   | ["chart", slide, chart, xlsx] => do pure (.addChart (← slide.toNat?) (← chart.toNat?) (← xlsx.toNat?))
+  | ["ole", slide, ole, pre, post, existing, ni, ext] => do
+      let ex ← if existing == "none" then some none else some <$> existing.toNat?
+      pure (.addOle (← slide.toNat?) (← ole.toNat?) (← decStr pre) (← decStr post) ex (← ni.toNat?) (← decStr ext))
   | ["notes", pres, slide, master, nm, nt, nn] => do
       let m ← if master == "none" then some none else some <$> master.toNat?
       pure (.addNotes (← pres.toNat?) (← slide.toNat?) m (← nm.toNat?) (← nt.toNat?) (← nn.toNat?))
